@@ -194,9 +194,14 @@ namespace sim
       for( std::size_t i = 0; i < n; ++i ) {
          const TreeNode& a = want[ i ];
          const TreeNode& b = got[ i ];
-         const bool same = a.type == b.type && a.depth == b.depth && a.nchildren == b.nchildren && ( i == 0 || ( a.b == b.b && a.bl == b.bl && a.bc == b.bc && a.has_content == b.has_content && ( !a.has_content || ( a.e == b.e && a.el == b.el && a.ec == b.ec ) ) ) );
+         const bool lc = !r.tree_lazy;  // line / column only where the nodes carry them
+         const bool same = a.type == b.type && a.depth == b.depth && a.nchildren == b.nchildren && ( i == 0 || ( a.b == b.b && ( !lc || ( a.bl == b.bl && a.bc == b.bc ) ) && a.has_content == b.has_content && ( !a.has_content || ( a.e == b.e && ( !lc || ( a.el == b.el && a.ec == b.ec ) ) ) ) ) );
          if( !same ) {
             viol( "C12.tree", head( b.type_name.empty() ? a.type_name : b.type_name ), "node " + std::to_string( i ) + " (preorder) differs: derivation has " + node_str( a ) + ", returned tree has " + node_str( b ) );
+            return;
+         }
+         if( !b.content_ok ) {
+            viol( "C12.tree", "content:" + head( b.type_name ), "node " + std::to_string( i ) + " (preorder) " + node_str( b ) + ": string_view() / string() are not the bytes the rule matched" );
             return;
          }
       }
